@@ -16,6 +16,7 @@ SHAPES = {
     "two-arches": [("Server", "x86_64", [0]), ("Server", "aarch64", [1]), ("Everything", "s390x", [2])],
     "shared-object": [("Server", "x86_64", [0]), ("Server", "ppc64le", [0, 1]), ("Workstation", "x86_64", [0])],
     "one-cell-3": [("Server", "x86_64", [0, 1, 2])],
+    "with-empty-cell": [("Server", "x86_64", [0, 1]), ("Client", "x86_64", []), ("Server", "s390x", [])],    # cells emptied again (zero images)
 }
 
 
@@ -56,6 +57,8 @@ def roundtrip(sym, shape, opts):
     pool = {}
     try:
         for variant, arch, idxs in cells:
+            if not idxs:
+                im.images.setdefault(variant, {}).setdefault(arch, set())
             for i in idxs:
                 if i not in pool:
                     pool[i] = make_image(sym, im, i, opts)
@@ -77,6 +80,7 @@ def roundtrip(sym, shape, opts):
     sym.check("compose.date", back.compose.date == im.compose.date)
     sym.check("compose.respin", back.compose.respin == im.compose.respin)
     sym.check("compose.id", back.compose.id == im.compose.id)
+    cells = [c for c in cells if c[2]]          # a cell without images is not stored
     want_variants = sorted(set(v for v, a, i in cells))
     sym.check("variants", sorted(back.images.keys()) == want_variants)
     for variant in want_variants:
